@@ -41,11 +41,13 @@ ELEMENT = [
         proof {
             if res__ is Ok {
                 // the text before the name is whatever the literals say (incidental: indentation, `val` / `private val`, the SerialName line)
-                let head = match visibility { Visibility::Public => wfmt_write_element_1_p0(), Visibility::Private => wfmt_write_element_2_p0() };
-                let tail = match visibility { Visibility::Public => wfmt_write_element_1_p3(), Visibility::Private => wfmt_write_element_2_p3() };
+                let head = match visibility { Visibility::Public => wfmt_write_element_2_p0(), Visibility::Private => wfmt_write_element_3_p0() };
+                let tail = match visibility { Visibility::Public => wfmt_write_element_2_p3(), Visibility::Private => wfmt_write_element_3_p3() };
                 let mid = w1.subrange(w0.len() as int, w1.len() as int);
                 assert(w1 =~= w0 + mid);
                 let pre = mid + head;
+                // the override case: the text after `match f.type_override(..)` is the override, with the `?` of an Option<T> field (literal of the format! site)
+                fmt_write_element_1_p0_chars(); fmt_write_element_1_p1_chars(); reveal_strlit("?");
                 assert(wit3(pre, ty@, tail));
                 assert(w@ =~= w0 + pre + member(Lang::Kotlin, ident_of(f.id.renamed@), ty@, *f) + tail);
             }
